@@ -79,4 +79,17 @@ Definition vpanic_none (o : option (list Z)) : outcome :=
   match o with Some r => Val [r] | None => PanicV end.
 Definition vpair (p : list Z * Z) : outcome := Val [fst p; [snd p]].
 Definition vpair2 (p : Z * Z) : outcome := Val [[fst p]; [snd p]].
+
+(* shared helpers for spec tables *)
+Definition sp_val (n : nat) (x : Z) : outcome := Val [to_limbs n x].
+Definition sp_fits (n : nat) (x : Z) : bool := (0 <=? x) && (x <? Bn n).
+Definition sp_checked (n : nat) (x : Z) : outcome := if sp_fits n x then sp_val n x else NoneV.
+Definition sp_panicking (n : nat) (x : Z) : outcome := if sp_fits n x then sp_val n x else PanicV.
+Definition sp_saturating (n : nat) (x : Z) : outcome :=
+  sp_val n (if x <? 0 then 0 else if x <? Bn n then x else Bn n - 1).
+Definition sp_wrapping (n : nat) (x : Z) : outcome := sp_val n (x mod Bn n).
+Definition ev (i : nat) (a : list (list Z)) : Z := eval (arg i a).
+Definition ln (i : nat) (a : list (list Z)) : nat := length (arg i a).
+Definition lmax (a : list (list Z)) : nat := Nat.max (ln 0 a) (ln 1 a).
+
 Open Scope string_scope. Open Scope Z_scope.
